@@ -196,7 +196,8 @@ def run(ctx: core.Ctx):
     core.write_evidence(
         ctx,
         rule="K = 2..4 connections on one event loop, each with a random stateful program (SET / USE / COM_INIT_DB / SET NAMES / "
-             "prepare / long data / execute with and without cursor / fetch / variable reads / queries that stay in flight until the "
+             "prepare / long data / execute with and without cursor / fetch / variable reads / catalog statements that depend on the default "
+             "database (SHOW TABLES, SHOW COLUMNS, DESCRIBE, COM_FIELD_LIST, SHOW INDEX over a schema whose databases all have a table t) / queries that stay in flight until the "
              "harness completes them / results whose rows arrive one harness event at a time, so that buffered output is pending while others run) under schedules drawn from a PRNG at event granularity (which packet is delivered next, which "
              "in-flight query completes next); relation: each connection's byte transcript (connection id and nonce blanked) equals the "
              "transcript of the same program run alone. distinct = (program set, schedule)",
